@@ -162,8 +162,9 @@ def counted_while_to_for(fnode):
             BODY                           BODY
             i += c
 
-    when `i` is a plain local that is assigned immediately before the loop, incremented by a positive integer constant as
-    the LAST statement of the body and nowhere else, BODY has no `continue` of this loop (it would skip the increment), no
+    when `i` is a plain local that is assigned immediately before the loop, incremented by a positive integer constant in
+    exactly one top-level statement of the body (BODY = PRE; i += c; POST with no `continue` of this loop in PRE - it would
+    skip the increment - and no use of `i` in POST), no
     name that B reads is assigned in the loop, the loop has no `else`, and `i` is not read after the loop before it is
     assigned again.  `i <= B` is range(A, B + 1, c); a decrement with `i > B` is range(A, B, -c), with `i >= B`
     range(A, B - 1, -c).  Further conjuncts of the test become a leading `if not (...): break`.  The initialisation stays
@@ -179,9 +180,9 @@ def counted_while_to_for(fnode):
         while stack:
             n_ = stack.pop()
             out.append(n_)
+            if isinstance(n_, (ast.For, ast.While, ast.AsyncFor, ast.FunctionDef, ast.AsyncFunctionDef, ast.Lambda, ast.ClassDef)):
+                continue            # a `continue` inside a nested loop belongs to that loop
             for ch in ast.iter_child_nodes(n_):
-                if isinstance(ch, (ast.For, ast.While, ast.AsyncFor, ast.FunctionDef, ast.AsyncFunctionDef, ast.Lambda, ast.ClassDef)):
-                    continue
                 stack.append(ch)
         return out
 
@@ -207,7 +208,13 @@ def counted_while_to_for(fnode):
                     isinstance(c0.ops[0], (ast.Lt, ast.LtE, ast.Gt, ast.GtE))):
                 continue
             B = c0.comparators[0]
-            last = s_.body[-1]
+            # the increment: the only top-level statement of the body that assigns the counter
+            incs = [q for q, b_ in enumerate(s_.body) if (isinstance(b_, ast.AugAssign) and isinstance(b_.target, ast.Name) and b_.target.id == i) or
+                    (isinstance(b_, ast.Assign) and len(b_.targets) == 1 and isinstance(b_.targets[0], ast.Name) and b_.targets[0].id == i)]
+            if len(incs) != 1:
+                continue
+            tpos = incs[0]
+            last = s_.body[tpos]
             step = None
             if isinstance(last, ast.AugAssign) and isinstance(last.target, ast.Name) and last.target.id == i and \
                     isinstance(last.op, (ast.Add, ast.Sub)) and isinstance(last.value, ast.Constant) and isinstance(last.value.value, int) and \
@@ -223,9 +230,12 @@ def counted_while_to_for(fnode):
             up = isinstance(c0.ops[0], (ast.Lt, ast.LtE))
             if up != (step > 0):
                 continue
-            rest = s_.body[:-1]
-            inner = own_level(rest)
-            if any(isinstance(x, ast.Continue) for x in inner):
+            # BODY = PRE; i += c; POST: PRE must not `continue` (the increment would be skipped), POST must not read the counter
+            pre_, post_ = s_.body[:tpos], s_.body[tpos + 1:]
+            rest = pre_ + post_
+            if any(isinstance(x, ast.Continue) for x in own_level(pre_)):
+                continue
+            if any(isinstance(x, ast.Name) and x.id == i for n_ in post_ for x in ast.walk(n_)):
                 continue
             allin = [x for n_ in rest for x in ast.walk(n_)]
             if any(isinstance(x, ast.Name) and x.id == i and isinstance(x.ctx, (ast.Store, ast.Del)) for x in allin):
@@ -280,11 +290,115 @@ def counted_while_to_for(fnode):
     return count
 
 
+# ---------------------------------------------------------------------------------------------------------------- N4
+def flat_index_to_nested(fnode):
+    """N4 - *one loop over a flat cell index*.
+
+        for k in range(R * C):             for y in range(R):
+            y = k // C             ==          for x in range(C):
+            x = k % C                              BODY
+            BODY
+
+    when the bound is the product of two extents (written in place or held in a local assigned once from the product), the
+    first statements of the body derive the two indices from `k` by `//` and `%` with the SAME second extent (or by
+    `divmod(k, C)`), `k` is used nowhere else in the loop nor after it, the two indices are not assigned again in BODY, the
+    loop has no `else` and BODY has no `break` of this loop (it would leave one loop instead of two).  Row-major order is
+    kept.  Returns the number of loops rewritten."""
+    count = 0
+    assigns = {}
+    for n_ in _own(fnode):
+        if isinstance(n_, ast.Assign) and len(n_.targets) == 1 and isinstance(n_.targets[0], ast.Name):
+            assigns.setdefault(n_.targets[0].id, []).append(n_.value)
+        elif isinstance(n_, (ast.AugAssign,)) and isinstance(n_.target, ast.Name):
+            assigns.setdefault(n_.target.id, []).append(None)
+
+    def product(e):
+        if isinstance(e, ast.Name) and len(assigns.get(e.id, [])) == 1 and assigns[e.id][0] is not None:
+            e = assigns[e.id][0]
+        if isinstance(e, ast.BinOp) and isinstance(e.op, ast.Mult):
+            return e.left, e.right
+        return None
+
+    def own_level(body):
+        out, stack = [], list(body)
+        while stack:
+            n_ = stack.pop()
+            out.append(n_)
+            if isinstance(n_, (ast.For, ast.While, ast.AsyncFor, ast.FunctionDef, ast.AsyncFunctionDef, ast.Lambda, ast.ClassDef)):
+                continue
+            stack.extend(ast.iter_child_nodes(n_))
+        return out
+
+    def rewrite(stmts):
+        nonlocal count
+        for k_, s_ in enumerate(stmts):
+            for fld in ('body', 'orelse', 'finalbody'):
+                sub = getattr(s_, fld, None)
+                if isinstance(sub, list) and sub and isinstance(sub[0], ast.stmt):
+                    rewrite(sub)
+            if not (isinstance(s_, ast.For) and not s_.orelse and isinstance(s_.target, ast.Name) and isinstance(s_.iter, ast.Call) and
+                    isinstance(s_.iter.func, ast.Name) and s_.iter.func.id in ('range', 'prange') and len(s_.iter.args) == 1 and not s_.iter.keywords):
+                continue
+            pr = product(s_.iter.args[0])
+            if pr is None:
+                continue
+            R, C = pr
+            k = s_.target.id
+            yname = xname = None
+            used = 0
+            dump = ast.dump
+            for b_ in s_.body[:2]:
+                if isinstance(b_, ast.Assign) and len(b_.targets) == 1 and isinstance(b_.targets[0], ast.Name) and isinstance(b_.value, ast.BinOp) and \
+                        isinstance(b_.value.left, ast.Name) and b_.value.left.id == k and dump(b_.value.right) == dump(C):
+                    if isinstance(b_.value.op, ast.FloorDiv) and yname is None:
+                        yname, used = b_.targets[0].id, used + 1
+                    elif isinstance(b_.value.op, ast.Mod) and xname is None:
+                        xname, used = b_.targets[0].id, used + 1
+                elif isinstance(b_, ast.Assign) and len(b_.targets) == 1 and isinstance(b_.targets[0], ast.Tuple) and len(b_.targets[0].elts) == 2 and \
+                        all(isinstance(x, ast.Name) for x in b_.targets[0].elts) and isinstance(b_.value, ast.Call) and \
+                        isinstance(b_.value.func, ast.Name) and b_.value.func.id == 'divmod' and len(b_.value.args) == 2 and \
+                        isinstance(b_.value.args[0], ast.Name) and b_.value.args[0].id == k and dump(b_.value.args[1]) == dump(C) and used == 0:
+                    yname, xname = b_.targets[0].elts[0].id, b_.targets[0].elts[1].id
+                    used = 1
+                    break
+            if yname is None or xname is None or yname == xname:
+                continue
+            body = s_.body[used:]
+            allin = [x for n_ in body for x in ast.walk(n_)]
+            if any(isinstance(x, ast.Name) and x.id == k for x in allin):
+                continue
+            if any(isinstance(x, ast.Name) and x.id in (yname, xname) and isinstance(x.ctx, (ast.Store, ast.Del)) for x in allin):
+                continue
+            if any(isinstance(x, ast.Break) for x in own_level(body)):
+                continue
+            # extents must not be assigned in the body
+            ext = {x.id for e_ in (R, C) for x in ast.walk(e_) if isinstance(x, ast.Name)}
+            if any(isinstance(x, ast.Name) and x.id in ext and isinstance(x.ctx, (ast.Store, ast.Del)) for x in allin):
+                continue
+            if any(isinstance(x, ast.Name) and x.id == k and isinstance(x.ctx, ast.Load) for t_ in stmts[k_ + 1:] for x in ast.walk(t_)):
+                continue
+            fn = s_.iter.func.id
+            inner = ast.For(target=ast.Name(id=xname, ctx=ast.Store()),
+                            iter=ast.Call(func=ast.Name(id=fn, ctx=ast.Load()), args=[copy.deepcopy(C)], keywords=[]),
+                            body=body or [ast.Pass()], orelse=[], type_comment=None)
+            outer = ast.For(target=ast.Name(id=yname, ctx=ast.Store()),
+                            iter=ast.Call(func=ast.Name(id=fn, ctx=ast.Load()), args=[copy.deepcopy(R)], keywords=[]),
+                            body=[ast.copy_location(inner, s_)], orelse=[], type_comment=None)
+            stmts[k_] = ast.copy_location(outer, s_)
+            ast.fix_missing_locations(stmts[k_])
+            count += 1
+    rewrite(fnode.body)
+    return count
+
+
 def normalise_module(tree):
     n = 0
     for node in ast.walk(tree):
         if isinstance(node, (ast.FunctionDef, ast.AsyncFunctionDef)):
             n += counted_while_to_for(node)
+    for node in ast.walk(tree):
+        if isinstance(node, (ast.FunctionDef, ast.AsyncFunctionDef)):
+            n += flat_index_to_nested(node)
     for node in ast.walk(tree):
         if isinstance(node, (ast.FunctionDef, ast.AsyncFunctionDef)):
             n += inline_test_locals(node)
